@@ -48,7 +48,7 @@ func vfC16Gen(rt *rapid.T) vfC16Plan {
 		ops := make([]int, n)
 		for j := range ops {
 			// mostly throttled items, so that the count crosses the limit
-			switch sched.Uniform(rt, "kind", 0, 9) {
+			switch sched.Uniform(rt, "kind", 0, 10) {
 			case 0:
 				ops[j] = 1
 			case 1:
@@ -57,6 +57,8 @@ func vfC16Gen(rt *rapid.T) vfC16Plan {
 				ops[j] = 3
 			case 3, 4:
 				ops[j] = 4
+			case 10:
+				ops[j] = 5 + sched.Uniform(rt, "eap_ok", 0, 1) // throttled item offered through executeAndPut: callback fails (5) / succeeds (6)
 			default:
 				ops[j] = 0
 			}
@@ -129,7 +131,7 @@ func vfC16Run(t *testing.T, p vfC16Plan) vk.Result {
 	}
 	for _, ops := range p.Prod {
 		for _, k := range ops {
-			if k < 0 || k > 4 {
+			if k < 0 || k > 6 {
 				return vk.Result{Discard: true}
 			}
 		}
@@ -191,6 +193,10 @@ func vfC16Exec(p vfC16Plan) vk.Result {
 			b := make([]byte, 2048) // above the pooling threshold, so that Free is observable
 			bufOf[id] = &b
 			it = &dataFrame{streamID: uint32(id), data: mem.BufferSlice{mem.NewBuffer(&b, pool)}}
+		case 5, 6:
+			// a throttled item that goes through executeAndPut (as the transports do with outgoingSettings and
+			// earlyAbortStream); with kind 5 the callback rejects it
+			it = &outgoingSettings{}
 		default:
 			it = &clientHeaders{streamID: uint32(id), onOrphaned: func(err error) {
 				mu.Lock()
@@ -237,8 +243,10 @@ func vfC16Exec(p vfC16Plan) vk.Result {
 		switch kind {
 		case 2:
 			ok, err = cb.executeAndPut(func() bool { return true }, it)
-		case 3:
+		case 3, 5:
 			ok, err = cb.executeAndPut(func() bool { return false }, it)
+		case 6:
+			ok, err = cb.executeAndPut(func() bool { return true }, it)
 		default:
 			err = cb.put(it)
 			ok = err == nil
@@ -336,7 +344,13 @@ func vfC16Exec(p vfC16Plan) vk.Result {
 					return fmt.Sprintf("put of item %d (kind %d) after finish returned (%v, %v), want (false, ErrConnClosing)", e.item, kind, e.ok, e.err)
 				}
 				classes["put_after_finish"] = true
-			case kind == 3:
+			case kind == 3 || kind == 5:
+				if kind == 5 {
+					classes["throttled_item_rejected_by_callback"] = true
+					if count == p.Limit-1 {
+						classes["throttled_item_rejected_at_limit_minus_1"] = true
+					}
+				}
 				if e.ok || e.err != nil {
 					return fmt.Sprintf("executeAndPut with failing callback returned (%v, %v), want (false, nil)", e.ok, e.err)
 				}
@@ -344,7 +358,7 @@ func vfC16Exec(p vfC16Plan) vk.Result {
 				if !e.ok || e.err != nil {
 					return fmt.Sprintf("put of item %d on an open control buffer returned (%v, %v)", e.item, e.ok, e.err)
 				}
-				thr := kind == 0 || kind == 4
+				thr := kind == 0 || kind == 4 || kind == 6
 				queue = append(queue, vfC16ModelItem{id: e.item, throttled: thr, kind: kind})
 				if thr {
 					count++
